@@ -12,7 +12,7 @@ PROPERTY = "C10"
 RULE = ("all (form in total / per month / each month) x (5 energy x 6 fat x 6 protein unit names) source and target combinations are "
         "enumerated per drawn settings (population 1e3..1e10, daily needs 500..5000 kcal, 10..200 g fat, 10..200 g protein; scalar and "
         "series shapes, drawn values written as float arrays, Python lists or whole numbers of integer type): Food.in_units is compared with a dimensional reference, the round trip A->B->A and the triangle "
-        "A->C->B are checked, form and shape must be preserved, the five in_units_* helpers are compared with in_units, the three anchor "
+        "A->C->B are checked, form and shape must be preserved, the five in_units_* helpers and the ratio-based per-person conversion are compared with in_units, the three anchor "
         "identities are asserted, unknown names must be rejected.  Non-trivial = conversion between two different base names under "
         "non-default settings; distinct by (settings, names, form).")
 ASSUMPTIONS = ["relative tolerance 1e-12 for one conversion, 1e-11 for chains (probe: worst 3.6e-16)",
@@ -160,6 +160,22 @@ def anchors_and_helpers(ctx, c, s, hist=()):
                 x, y = getattr(a, h)(), a.in_units(*tgt)
             if list(x.units) != list(y.units) or max(rel(p, q) for p, q in zip(arr(x), arr(y))) > 0:
                 ctx.fail("helper-differs-from-in_units:" + h, "%s form %s" % (h, form), case)
+    # the one conversion that does not go through in_units: per-person values from a quantity in billion kcals / thousand tons (per month
+    # or each month) and three ratios; with ratios of one it IS the conversion to kcals / grams / grams per person per day, and it is
+    # linear in the ratios (kcals x kr, fat x kr x fr, protein x kr x pr)
+    for form in ("per", "each"):
+        a = mk(("billion kcals", "thousand tons", "thousand tons"), form, c)
+        tgt = ("kcals per person per day", "grams per person per day", "grams per person per day")
+        for kr, fr, pr in ((1.0, 1.0, 1.0), (2.0, 0.5, 3.0), (c["kcals"] / 1000.0, c["fat"] / 100.0, c["protein"] / 100.0)):
+            ctx.count()
+            with quiet():
+                x, y = a.in_units_kcals_grams_grams_per_person_from_ratio(kr, fr, pr), a.in_units(*tgt)
+            want = [arr(y)[0] * kr, arr(y)[1] * kr * fr, arr(y)[2] * kr * pr]
+            # (labels as this method documents them: the per-person names, ' each month' for a series, nothing for a single month)
+            lab = [u + (" each month" if form == "each" else "") for u in tgt]
+            if list(x.units) != lab or max(rel(p, q) for p, q in zip(arr(x), want)) > 1e-12:
+                ctx.fail("helper-differs-from-in_units:in_units_kcals_grams_grams_per_person_from_ratio",
+                         "form %s ratios %r: got %r, in_units x ratios gives %r" % (form, (kr, fr, pr), [v.tolist() for v in arr(x)], [np.asarray(v).tolist() for v in want]), case)
     # unknown names are refused
     a = mk(("billion kcals", "thousand tons", "thousand tons"), "total", c)
     for bad in (("kcals", "thousand tons", "thousand tons"), ("billion kcals", "tons", "thousand tons"),
